@@ -15,6 +15,9 @@ RULE = ("small finite-state networks from templates x random wiring (conversion 
 ASSUMPTIONS = ["scipy.linalg.expm of the reference generator is the CME solution", "a bias below ~8*sqrt(p(1-p)/n) per cell would pass",
                "false-alarm probability per run <= 1e-9 per stage (Bonferroni over <= 1e6 cells), two stages required"]
 RUN_OPTS = {"batch_size": 1, "timeout_per_case": 900.0, "base_timeout": 120.0}
+# every network here is finite (its master equation was built) and a case normally takes seconds, with a 900 s budget: a case that
+# does not come back leaves the run inconclusive, it is not waved through
+MAX_TIMEOUTS = 0
 MINIMA = {"*": {"runs": 100000, "cells_tested": 300, "networks_tested": 6}}
 
 
